@@ -927,40 +927,67 @@ func pairTarget(a, b *kind) *target {
 }
 
 // checkTarget: decoding b into the target fails, or the decoded value re-encodes to exactly b.
-func checkTarget(scenario string, tg *target, b []byte, refErr error) outcome {
+func checkTarget(scenario string, tg *target, b []byte, refErr error, stream bool) outcome {
 	var o outcome
 	bad := func(oracle, caseID, what string, extra ...interface{}) {
-		d := map[string]interface{}{"kind": "target", "target": tg.name, "type": tg.typ.String(), "input": hex.EncodeToString(b), "what": what}
+		d := map[string]interface{}{"kind": "target", "target": tg.name, "type": tg.typ.String(), "input": hex.EncodeToString(b), "what": what, "stream": stream}
 		for i := 0; i+1 < len(extra); i += 2 {
 			d[extra[i].(string)] = extra[i+1]
 		}
 		o.viols = append(o.viols, viol{Scenario: scenario, Oracle: oracle, CaseID: caseID, Detail: d})
 	}
+	reencode := func(api string, pv reflect.Value, in []byte, invalid error) {
+		out, eerr, p := encodeGuard(pv.Interface())
+		switch {
+		case p != nil:
+			bad("no-panic", "target="+tg.name, fmt.Sprint("EncodeToBytes panic after ", api, ": ", p))
+		case eerr != nil:
+			bad("canonical-reencode", "encode-error/target="+tg.name, api+": decoded value cannot be encoded: "+eerr.Error())
+		case !bytes.Equal(out, in):
+			id := diffClass(in, out) + tg.diffField(in, out)
+			if tg.fields == nil || strings.HasSuffix(id, "field=header") || strings.HasSuffix(id, "field=?") {
+				id += "/target=" + tg.name
+			}
+			bad("canonical-reencode", id, api+": accepted input is not the encoding of the decoded value", "reencoded", hx(out), "consumed", hx(in))
+		case invalid != nil && !tg.hasRaw:
+			bad("accept-reject", "invalid-rlp-accepted/target="+tg.name+"/ref="+refReason(invalid), api+": input is not canonical RLP")
+		}
+	}
+	o.class = "target/" + tg.name + "/reject"
 	pv := reflect.New(tg.typ)
 	err, p := guard(func() error { return rlp.DecodeBytes(b, pv.Interface()) })
 	if p != nil {
 		bad("no-panic", "target="+tg.name, fmt.Sprint("DecodeBytes panic: ", p))
 		return o
 	}
-	if err != nil {
-		o.class = "target/" + tg.name + "/reject"
+	if err == nil {
+		o.class = "target/" + tg.name + "/accept"
+		reencode("DecodeBytes", pv, b, refErr)
+	}
+	if !stream {
 		return o
 	}
-	o.class = "target/" + tg.name + "/accept"
-	out, eerr, p := encodeGuard(pv.Interface())
-	switch {
-	case p != nil:
-		bad("no-panic", "target="+tg.name, fmt.Sprint("EncodeToBytes panic after decoding: ", p))
-	case eerr != nil:
-		bad("canonical-reencode", "encode-error/target="+tg.name, "decoded value cannot be encoded: "+eerr.Error())
-	case !bytes.Equal(out, b):
-		id := diffClass(b, out) + tg.diffField(b, out)
-		if tg.fields == nil || strings.HasSuffix(id, "field=header") || strings.HasSuffix(id, "field=?") {
-			id += "/target=" + tg.name
+	// Stream.Decode: the first value only; what it consumed must be the encoding of what it returned
+	r := bytes.NewReader(b)
+	pv2 := reflect.New(tg.typ)
+	serr, p := guard(func() error { return rlp.NewStream(r, 0).Decode(pv2.Interface()) })
+	if p != nil {
+		bad("no-panic", "target="+tg.name, fmt.Sprint("Stream.Decode panic: ", p))
+		return o
+	}
+	if serr == nil {
+		if err != nil {
+			o.class = "target/" + tg.name + "/accept-first-value"
 		}
-		bad("canonical-reencode", id, "accepted input is not the encoding of the decoded value", "reencoded", hx(out))
-	case refErr != nil && !tg.hasRaw:
-		bad("accept-reject", "invalid-rlp-accepted/target="+tg.name+"/ref="+refReason(refErr), "input is not canonical RLP")
+		consumed := b[:len(b)-r.Len()]
+		_, rest, ferr := refrlp.DecodeFirst(b)
+		if ferr == nil && len(rest) != r.Len() && !tg.hasRaw {
+			bad("decoded-tree", "stream-extent/target="+tg.name, fmt.Sprintf("Stream.Decode consumed %d bytes, the first value has %d", len(consumed), len(b)-len(rest)))
+		} else {
+			reencode("Stream.Decode", pv2, consumed, ferr)
+		}
+	} else if err == nil {
+		bad("accept-reject", "stream-rejects-what-DecodeBytes-accepts/target="+tg.name, "Stream.Decode: "+serr.Error())
 	}
 	return o
 }
